@@ -342,6 +342,23 @@ class HtmlDunderTF(TF):
         return "<b>markup for a template engine</b>"
 
 
+class MappingTF(TF, __import__("collections").abc.Mapping):
+    """A tagifiable component that also implements Mapping (it is not a dict): given to an element it is a child that expands."""
+
+    _data = {"title": "not an attribute", "id": "nor this"}
+
+    def __getitem__(self, k):
+        return self._data[k]
+
+    def __iter__(self):
+        return iter(self._data)
+
+    def __len__(self):
+        return len(self._data)
+
+    __hash__ = None
+
+
 class StoredTF(TF):
     """Tagifiable that builds its (already tagified) result once and hands out that same object every time."""
 
@@ -551,6 +568,8 @@ def _build(r):
             return StoredTF(r["c"], r.get("ret", "list"))
         if r.get("as") == "htmldunder":
             return HtmlDunderTF(r["c"], r.get("ret", "list"))
+        if r.get("as") == "mapping":
+            return MappingTF(r["c"], r.get("ret", "list"))
         if r.get("as") == "sublist":
             return SubListTF(r["c"], "list")
         return TF(r["c"], r.get("ret", "list"))
